@@ -263,7 +263,7 @@ def valid_renderings(data, notation):
     s = data.draw(gen.sentence(prof))
     if notation == 'polish':
         return A.pol(s)
-    return A.std(s, top=data.draw(st.booleans()), infix_identity=data.draw(st.booleans()))
+    return A.std(s, top=data.draw(st.booleans()), infix_identity=data.draw(st.booleans()), infix_preds=data.draw(st.integers(0, 2)) == 0)
 
 
 def binder_faults(data, notation):
